@@ -354,7 +354,36 @@ pub fn gen_case(seed: u64, idx: u64, corpus: &Corpus, prefixes: &[(usize, usize)
             let o = snippet_module(&mut rng);
             Case { cat: "token-mutation-snippets", input: mutate_tokens(&mut rng, &s, &o), origin: String::new() }
         }
-        13..=15 => Case { cat: "snippets", input: snippet_module(&mut rng), origin: String::new() },
+        13 | 14 => Case { cat: "snippets", input: snippet_module(&mut rng), origin: String::new() },
+        15 => {
+            // random reference graphs: aliases, chains of aliases leading into cycles, parameterless self references through
+            // constructed types, each reachable from value assignments, DEFAULTs and constraints
+            let k = 2 + rng.below(5);
+            let mut s = headers(&mut rng);
+            for i in 0..k {
+                let j = rng.below(k);
+                let body = match rng.below(7) {
+                    0 => "INTEGER".to_string(),
+                    1 => format!("SEQUENCE {{ a G{j} OPTIONAL }}"),
+                    2 => format!("SEQUENCE OF G{j}"),
+                    3 => format!("CHOICE {{ a G{j}, b NULL }}"),
+                    4 => format!("G{j} (0..5)"),
+                    _ => format!("G{j}"),
+                };
+                s.push_str(&format!("G{i} ::= {body}\n"));
+            }
+            for i in 0..1 + rng.below(3) {
+                let j = rng.below(k);
+                match rng.below(4) {
+                    0 => s.push_str(&format!("vg{i} G{j} ::= 1\n")),
+                    1 => s.push_str(&format!("Sg{i} ::= SEQUENCE {{ m G{j} DEFAULT 1 }}\n")),
+                    2 => s.push_str(&format!("vh{i} G{j} ::= vg0\n")),
+                    _ => s.push_str(&format!("Cg{i} ::= INTEGER (0..vg{j})\n")),
+                }
+            }
+            s.push_str("END\n");
+            Case { cat: "reference-graph", input: s, origin: String::new() }
+        }
         16 => {
             // multi-byte character inserted at a token boundary
             let base = if rng.chance(1, 2) { snippet_module(&mut rng) } else { small_file(&mut rng, corpus, 6_000).1.clone() };
